@@ -82,6 +82,22 @@ func admit(c c14Case) (obs, bad string) {
 			}
 		case "generate-rawvalue":
 			_, err = otp.GenerateOCRA("GEZDGNBVGY3TQOJQ", otp.RawSuite{SuiteConfig: c.Shape.lib()}, in.lib())
+		case "generate-edited", "edited.Validate":
+			// a constructor's result whose (exported, embedded) configuration the caller then replaces
+			var rsv otp.RawSuite
+			if c.Lens[0]%2 == 0 {
+				s0, _ := otp.NewRawSuite("OCRA-1:HOTP-SHA1-6:QN08")
+				rsv, _ = s0.(otp.RawSuite)
+			} else {
+				s0, _ := otp.NewSuite(otp.SuiteConfig{Raw: "OCRA-1:HOTP-SHA1-6:QN08", Digits: 6, IncludeChallenge: true, Challenge: 1})
+				rsv, _ = s0.(otp.RawSuite)
+			}
+			rsv.SuiteConfig = c.Shape.lib()
+			if c.Entry == "edited.Validate" {
+				err = rsv.Validate()
+			} else {
+				_, err = otp.GenerateOCRA("GEZDGNBVGY3TQOJQ", rsv, in.lib())
+			}
 		case "rawvalue.Validate":
 			err = otp.RawSuite{SuiteConfig: c.Shape.lib()}.Validate()
 		case "suite.Validate":
@@ -99,7 +115,7 @@ func admit(c c14Case) (obs, bad string) {
 	switch c.Entry {
 	case "input.Validate":
 		want = ref.Admit(rs, in.ref())
-	case "suite.Validate", "newsuite", "rawvalue.Validate":
+	case "suite.Validate", "newsuite", "rawvalue.Validate", "edited.Validate":
 		want = ref.Usable(rs)
 	default:
 		want = ref.Usable(rs) && ref.Admit(rs, in.ref())
@@ -162,7 +178,7 @@ func c14(r *ev.Run) {
 								}
 								x := sh
 								x.Text = text
-								for _, e := range []string{"rawvalue.Validate", "generate-rawvalue"} {
+								for _, e := range []string{"rawvalue.Validate", "generate-rawvalue", "edited.Validate", "generate-edited"} {
 									c := c14Case{x, lens, e, 0}
 									obs, bad := admit(c)
 									local++
